@@ -35,11 +35,16 @@ def project(x):
     return [int(t) for t in a.reshape(-1).tolist()]
 
 
-def build(prog, kc, rec=None, tag=None):
+def build(prog, kc, rec=None, tag=None, prims_only=False, inline_calls=False):
     """Return f(*inputs) -> tuple of output leaves for the IR program `prog`.
 
     kc: the closed-over constants (KConsts of the spec, printed with the case).
-    rec / tag: genjax.time_travel.rec / tag for `rec` equations (C31 only)."""
+    rec / tag: genjax.time_travel.rec / tag for `rec` equations (C31 only).
+    inline_calls: the IR op `call` applies the wrapped function directly instead of going through genjax's
+    initial_style_bind (used only to tell a builder bug from a broken initial-style primitive).
+    prims_only: arithmetic is written with lax primitives instead of the jit-wrapped jnp functions (same values; the
+    time-travel interpreter re-stages and eagerly re-executes the program at every remix, and every eager pjit equation
+    of a fresh jaxpr costs an XLA compilation)."""
     import jax.numpy as jnp
     from jax import lax
 
@@ -68,6 +73,25 @@ def build(prog, kc, rec=None, tag=None):
     def eq(e, env):
         op = e["op"]
         a = [opnd(o, env) for o in e["ins"]]
+        if prims_only and op in ("add", "sub", "mul", "neg", "max", "lt", "where", "index"):
+            a = [arr(x) for x in a]
+            three = jnp.int32(3)
+            if op == "add":
+                return [lax.rem(lax.add(a[0], a[1]), three)]
+            if op == "sub":
+                return [lax.rem(lax.add(lax.sub(a[0], a[1]), three), three)]
+            if op == "mul":
+                return [lax.rem(lax.mul(a[0], a[1]), three)]
+            if op == "neg":
+                return [lax.rem(lax.sub(three, a[0]), three)]
+            if op == "max":
+                return [lax.max(a[0], a[1])]
+            if op == "lt":
+                return [lax.convert_element_type(lax.lt(a[0], a[1]), jnp.int32)]
+            if op == "where":
+                return [lax.select(lax.gt(a[0], jnp.int32(0)), a[1], a[2])]
+            if op == "index":
+                return [lax.dynamic_index_in_dim(a[0], lax.clamp(jnp.int32(0), a[1], jnp.int32(2)), 0, keepdims=False)]
         if op == "add":
             return [jnp.mod(a[0] + a[1], 3)]
         if op == "sub":
@@ -100,6 +124,8 @@ def build(prog, kc, rec=None, tag=None):
                                 lambda s: (s[0] - 1,) + tuple(body(*s[1:])),
                                 (jnp.minimum(arr(a[0]), 3),) + tuple(arr(x) for x in a[1:]))
             return list(st[1:])
+        if op == "call" and inline_calls:
+            return list(mk(e["sub"][0])(*a))
         if op == "call":
             from genjax._src.core.compiler.initial_style_primitive import initial_style_bind
             return list(initial_style_bind(call_primitive())(mk(e["sub"][0]))(*a))
